@@ -7,8 +7,19 @@ import traceback
 sys.path.insert(0, os.path.dirname(os.path.abspath(__file__)))
 import common
 sys.path.insert(0, os.path.join(common.VERIF, "tx"))
+sys.path.insert(0, os.path.join(common.VERIF, "tx"))
 
+# (module under tx/, generated file).  A module's main(repo) returns the Coq text (or a tuple whose first item is it).
 TRANSLATORS = [("rk", "Gen/RkTableaux.v")]
+# further translators register themselves by dropping a file tx/<name>.py that defines TARGET = "Gen/<X>.v" and main(repo)
+for _f in sorted(os.listdir(os.path.join(common.VERIF, "tx"))):
+    if _f.endswith(".py") and _f[:-3] not in [t[0] for t in TRANSLATORS]:
+        try:
+            _m = importlib.import_module(_f[:-3])
+            if hasattr(_m, "TARGET") and hasattr(_m, "main"):
+                TRANSLATORS.append((_f[:-3], _m.TARGET))
+        except Exception:
+            traceback.print_exc()
 
 
 def main():
@@ -23,6 +34,7 @@ def main():
         except Exception:
             traceback.print_exc()
             rc = 1
+    common.write_coq_project()
     return rc
 
 
